@@ -57,3 +57,30 @@ Theorem C13_first_moment_transfers_along_projection_real :
     aL *m ursubmx (mexp (t *: vl1 SL RL)) *m (P *m eC) = (aL *m P) *m ursubmx (mexp (t *: vl1 SC RC)) *m eC.
 Proof. by move=> *; apply: (m1_lumping (expm := fun n : nat => @mexp n) (@mexp_intertwine)). Qed.
 Print Assumptions C13_first_moment_transfers_along_projection_real.
+
+(* the same transfer for the translated _accumulate (gen/LoopsGen.v, regenerated from the source on every run), for moments of every
+   order, on ANY piecewise-constant demography: if the row-stochastic projection P (the hypergeometric down-projection of block-count
+   states) intertwines the rate matrices of n and n - 1 samples in EVERY epoch and the rewards, the accumulated moments of the n-sample
+   chain are those of the (n - 1)-sample chain started from alpha P (analysis/SourceLumpMoments.v) *)
+From PG Require Import base.Ops base.OpsR model.Matrix model.Loop model.PhaseType analysis.Denote analysis.CdfFacts gen.NpLoops gen.LoopsGen
+                       analysis.SourceLumpMoments.
+Delimit Scope nat_scope with N.
+Theorem C13_source_moments_transfer_along_projection :
+  forall expm : seq (seq R) -> seq (seq R),
+    (forall n A, wf n n A -> wf n n (expm A) /\ mx_of n n (expm A) = mexp (mx_of n n A)) ->
+  forall (regfL regfC : seq (seq R) -> R) (m n k : nat) (P : seq (seq R))
+         (SsL : seq (QArith_base.Q * seq (seq R))) (SlastL : seq (seq R)) (SsC : seq (QArith_base.Q * seq (seq R))) (SlastC : seq (seq R))
+         (RsL RsC : seq (seq R)) (alphaL : seq R) (ts : seq QArith_base.Q),
+    regfL (List.hd (None, SlastL) (all_epochs SsL SlastL)).2 <> 0 ->
+    regfC (List.hd (None, SlastC) (all_epochs SsC SlastC)).2 <> 0 ->
+    wf m n P -> wf m m SlastL -> wf n n SlastC ->
+    List.Forall2 (lump_rel m n P) SsL SsC ->
+    mmul OpsR SlastL P = mmul OpsR P SlastC ->
+    (forall i, (i < k)%N -> mmul OpsR (diagm OpsR (nth [::] RsL i)) P = mmul OpsR P (diagm OpsR (nth [::] RsC i))) ->
+    mvec OpsR P (ones OpsR n) = ones OpsR m ->
+    (forall i, (i < k)%N -> size (nth [::] RsL i) = m) -> (forall i, (i < k)%N -> size (nth [::] RsC i) = n) ->
+    size alphaL = m ->
+    PhaseTypeDistribution_accumulate OpsR expm regfL (length SlastL) k (all_epochs SsL SlastL) RsL alphaL ts
+    = PhaseTypeDistribution_accumulate OpsR expm regfC (length SlastC) k (all_epochs SsC SlastC) RsC (vmat OpsR alphaL P) ts.
+Proof. exact: source_accumulate_lumping. Qed.
+Print Assumptions C13_source_moments_transfer_along_projection.
